@@ -4,10 +4,16 @@ import json, os
 here = os.path.dirname(os.path.abspath(__file__))
 tbl = json.load(open(os.path.join(here, "checks.json")))
 import glob
+# only checks validated on the unchanged tree (listed in claimed.txt) are claimed
+allow = set(open(os.path.join(here, "claimed.txt")).read().split()) if os.path.exists(os.path.join(here, "claimed.txt")) else set()
 for f in sorted(glob.glob(os.path.join(here, "checks.d", "C*.json"))):
     i = os.path.basename(f)[:-5]
-    if os.path.isdir(os.path.join(here, "harness", "cmd", i.lower())):
-        tbl["claimed"][i] = json.load(open(f))
+    if i in allow and os.path.isdir(os.path.join(here, "harness", "cmd", i.lower())):
+        try:
+            tbl["claimed"][i] = json.load(open(f))
+        except Exception as e:
+            print("WARNING: bad checks.d entry", f, e)
+tbl["claimed"] = {k: v for k, v in tbl["claimed"].items() if k in allow}
 props = [json.loads(l) for l in open(os.path.join(here, "properties.jsonl")) if l.strip()]
 checks, na = [], []
 for p in props:
